@@ -57,6 +57,12 @@ type Zlisp struct {
 	// processes, the environment or the import path, not even through
 	// StandardSetup's builders or the include special form.
 	sandboxed bool
+
+	// nesting depth of the array comparison in progress
+	compareDepth int
+
+	// arrays on the path of the comment filter walk in progress
+	filtering map[*SexpArray]bool
 }
 
 // allow clients to establish a callback to
